@@ -178,8 +178,10 @@ def tn_table(x, specs=()):
 SKEL_INFO = {'@type': 'neuroglancer_skeletons'}
 RADIUS_ATTR = {'id': 'radius', 'data_type': 'float32', 'num_components': 1}
 
-UNITS = [(None, None), ('1 nm', 1), ('8 nm', 8), ('4 nm', 4), ('16 nm', 16), ('0.5 nm', Fraction(1, 2)),
-         ('4.5 nm', Fraction(9, 2)), ('1 um', 1000), ('2 um', 2000)]
+# (units, nm scale per axis, input class for the known finding or None)
+UNITS = [(None, None, None), ('1 nm', 1, None), ('8 nm', 8, None), ('4 nm', 4, None), ('16 nm', 16, None),
+         ('0.5 nm', Fraction(1, 2), 'frac'), ('4.5 nm', Fraction(9, 2), 'frac'), ('1 um', 1000, 'frac'), ('2 um', 2000, 'frac'),
+         (['4 nm', '4 nm', '40 nm'], (4, 4, 40), 'aniso')]
 
 
 # ------------------------------------------------------------------------------------------------
@@ -189,7 +191,7 @@ def case_skel(ctx, case):
     r = random.Random(case['seed'])
     ids, parents, xyz, rad = gen_table(r, case['n'], case['ids'], case.get('roots', 1), case.get('shuffle', False))
     radius = bool(case['radius'])
-    units, nm = UNITS[case.get('units', 0) % len(UNITS)]
+    units, nm, ucls = UNITS[case.get('units', 0) % len(UNITS)]
     ctx.count('skel_ids', case['ids']); ctx.count('skel_n', min(case['n'], 10) if case['n'] < 10 else '10+')
     ctx.count('skel_radius', radius)
     n = make_tn(ids, parents, xyz, rad, id=case.get('nid', 42), units=units)
@@ -236,13 +238,15 @@ def case_skel(ctx, case):
         ctx.oracle((info.get('vertex_attributes') == [RADIUS_ATTR]) if radius else ('vertex_attributes' not in info),
                    f'info vertex_attributes = {info.get("vertex_attributes")!r} with radius={radius}', case)
         tr = info.get('transform')
-        want = 1 if nm is None else nm
+        want = (1, 1, 1) if nm is None else (nm if isinstance(nm, tuple) else (nm, nm, nm))
         good = isinstance(tr, list) and len(tr) == 12 and all(
-            (abs(Fraction(tr[4 * i + j]) - want) <= Fraction(want, 10 ** 6)) if i == j else tr[4 * i + j] == 0
+            (abs(Fraction(tr[4 * i + j]) - want[i]) <= Fraction(want[i]) / 10 ** 6) if i == j else tr[4 * i + j] == 0
             for i in range(3) for j in range(4))
-        ctx.count('info_units', units)
-        ctx.oracle(good, f'info transform {tr} does not record the nm scale {want} of units {units!r}', case,
-                   signature='write_info_file/transform/int-dtype-truncates-nm-scale')
+        ctx.count('info_units', str(units))
+        sig = {'frac': 'write_info_file/transform/int-dtype-truncates-nm-scale',
+               'aniso': 'write_info_file/transform/per-axis-units'}.get(ucls)
+        ctx.oracle(good, f'info transform {tr} does not record the nm scale {tuple(map(str, want))} of units {units!r}', case,
+                   signature=sig)
 
 
 def _brief(dec):
@@ -554,9 +558,10 @@ def case_batch(ctx, case):
                 table[fn] = (len(m.vertices), len(m.faces))
             content[fn] = (fdir / fn).read_bytes()
         # corrupt the chosen subset
-        valid = {}
+        valid, touched = {}, set()
         for j, (fn, nm, nid) in enumerate(names):
             if j in bad:
+                touched.add(fn)
                 how = case['how'][j % len(case['how'])]
                 if fmt in ('pre_skel', 'pre_mesh'):
                     data = corrupt_bytes(r, content[fn], how)
@@ -635,18 +640,19 @@ def case_batch(ctx, case):
                        f"{'raised' if st == 'raise' else 'returned ' + str(got)}" +
                        ('' if st != 'raise' else f' {type(res).__name__}: {str(res)[:80]}'), case, signature=sig)
         else:
-            want = [info_by_fn[fn] for fn, okf in zip(listing, flags) if okf]
+            named = pattern == 'name_id'
+            want = [(info_by_fn[fn][0] if named else None, info_by_fn[fn][1]) for fn, okf in zip(listing, flags) if okf]
             if st == 'raise':
                 ctx.oracle(False, f"errors='{errors}': batch read raised {type(res).__name__}: {str(res)[:100]} "
                                   f"({nbad} corrupt of {len(flags)})", case, signature=sig)
             else:
-                have = [(g[2], g[1]) for g in got]
+                have = [(g[2] if named else None, g[1]) for g in got]
                 ctx.oracle(have == want, f"errors='{errors}' ({fmt}, {container}): returned {got}, expected one neuron per valid "
                                          f"file in listing order with (name,id) = {want}", case, signature=sig)
                 # the valid files are not affected by the corrupt ones
                 for x in res:
                     fn = next((f for f in listing if info_by_fn[f][1] == getattr(x, 'id', None)), None)
-                    if fn is None or not valid[fn]:
+                    if fn is None or not valid[fn] or fn in touched:
                         continue
                     if fmt == 'pre_skel':
                         okc = (x.n_nodes, [int(v) for v in x.nodes.parent_id.values]) == table[fn]
@@ -755,7 +761,8 @@ def case_nrrd_dp(ctx, case):
         ctx.corr(':'.join(str(int(v)) for v in got), model, 'Dotprops units magnitude read back vs Lean nrrdReadDotpropsUnits', case)
         same = got == tuple(float(m) for m in mags) and str(res.units_xyz.units) == uname
         ctx.oracle(same, f'NRRD round trip of Dotprops: units {units!r} come back as {res.units} with unchanged points '
-                         f'(physical size changes by {mags})', case, signature='nrrd/dotprops/units-magnitude-lost')
+                         f'(physical size changes by {mags})', case,
+                   signature='nrrd/dotprops/units-magnitude-lost' if tuple(mags) != (1, 1, 1) else None)
 
 
 # ------------------------------------------------------------------------------------------------
@@ -765,6 +772,22 @@ def conn_table(r, ids, m):
     return pd.DataFrame({'connector_id': [1000 + i for i in range(m)], 'node_id': [r.choice(ids) for _ in range(m)],
                          'x': [exact32(r) for _ in range(m)], 'y': [exact32(r) for _ in range(m)], 'z': [exact32(r) for _ in range(m)],
                          'type': [r.randint(0, 1) for _ in range(m)]})
+
+
+def close_obs(a, b, tol=1e-9):
+    """column dicts equal up to the writer's decimal precision (pandas to_json: 10 digits)"""
+    if set(a) != set(b):
+        return False
+    for c in a:
+        if len(a[c]) != len(b[c]):
+            return False
+        for x, y in zip(a[c], b[c]):
+            if isinstance(x, float) or isinstance(y, float):
+                if abs(x - y) > tol * max(1.0, abs(y)):
+                    return False
+            elif x != y:
+                return False
+    return True
 
 
 def df_obs(df, cols):
@@ -811,10 +834,10 @@ def case_json(ctx, case):
             return
         ok = len(res) == len(nl)
         for n, m in zip(nl, res):
-            ok &= df_obs(m.nodes, NODE_COLS) == df_obs(n.nodes, NODE_COLS) and m.id == n.id
+            ok &= close_obs(df_obs(m.nodes, NODE_COLS), df_obs(n.nodes, NODE_COLS)) and m.id == n.id
             ok &= m.has_connectors == n.has_connectors
             if n.has_connectors and m.has_connectors:
-                ok &= df_obs(m.connectors, CONN_COLS) == df_obs(n.connectors, CONN_COLS)
+                ok &= close_obs(df_obs(m.connectors, CONN_COLS), df_obs(n.connectors, CONN_COLS))
         ctx.oracle(bool(ok), 'navis JSON round trip: nodes / connectors / ids differ', case)
 
 
@@ -828,13 +851,14 @@ def case_h5(ctx, case):
     r = random.Random(case['seed'])
     serialized, raw = case['serialized'], case['raw']
     kinds = case['kinds']
+    use_conn = bool(case.get('connectors')) and all(k == 'skel' for k in kinds)
     neurons = []
     for j, kd in enumerate(kinds):
         units, nm = H5_UNITS[(case['units'] + j) % len(H5_UNITS)]
         if kd == 'skel':
             ids, parents, xyz, rad = gen_table(r, r.randint(1, case['n']), r.choice(ID_CLASSES), 1, r.random() < 0.5)
             n = make_tn(ids, parents, xyz, rad, id=100 + j, name=f'sk{j}', units=units)
-            if case.get('connectors'):
+            if use_conn:
                 n.connectors = conn_table(r, ids, r.randint(1, 4))
         elif kd == 'mesh':
             v, f = gen_mesh(r, r.randint(4, 8), r.randint(2, 6))
@@ -850,7 +874,7 @@ def case_h5(ctx, case):
     with Tmp() as d:
         fp = str(d / 't.h5')
         st, e = outcome(lambda: navis.write_h5(obj, fp, serialized=serialized, raw=raw,
-                                               annotations=['connectors'] if (raw and case.get('connectors')) else None))
+                                               annotations=['connectors'] if (raw and use_conn) else None))
         if st == 'raise':
             ctx.oracle(False, f'write_h5 raises {type(e).__name__}: {e}', case)
             return
@@ -878,7 +902,7 @@ def case_h5(ctx, case):
                     un = g.attrs.get('units_nm')
                     ctx.oracle((un is None) if nm is None else (un is not None and abs(float(np.asarray(un).reshape(-1)[0]) - nm) <= 1e-6 * nm),
                                f'HDF5 units_nm = {un!r}, written units {n.units}', case)
-                    if kd == 'skel' and case.get('connectors'):
+                    if kd == 'skel' and use_conn:
                         a = grp.get('annotations/connectors')
                         ok = a is not None and all(np.array_equal(a[c][:], n.connectors[c].values) for c in CONN_COLS)
                         ctx.oracle(bool(ok), 'independent HDF5 decoder: connectors annotation missing / differs', case,
@@ -910,7 +934,7 @@ def case_h5(ctx, case):
                     got = 'err'
                 ctx.oracle((got is None) if nm is None else (got not in (None, 'err') and abs(got - nm) <= 1e-6 * nm),
                            f'navis HDF5 round trip ({kd}): units {n.units} read back as {x.units}', case)
-                if kd == 'skel' and case.get('connectors'):
+                if kd == 'skel' and use_conn:
                     wrote_raw_only = raw and not serialized and not aslist
                     okc = x.has_connectors and df_obs(x.connectors, CONN_COLS) == df_obs(n.connectors, CONN_COLS)
                     ctx.oracle(bool(okc), f'navis HDF5 round trip: connectors written as annotation are not read back '
